@@ -14,7 +14,7 @@ Definition dec2 (n : nat) : str := if Nat.ltb n 10 then R "0" ++ dec n else dec 
 Definition custom_file_names (s : st) : bool := truthy (assoc (R "xhtml-chap-custom-filenames") (params s)).
 Definition has_slash (x : str) : bool := existsb (N.eqb 47) x.
 (* utils.go idIsSafe: an id that can be written as it is in attribute values and file names *)
-Definition id_safe (x : str) : bool := negb (contains_any [38; 60; 62; 34; 39] x).
+Definition id_safe (x : str) : bool := negb (contains_any id_unsafe_chars x).
 Definition chapname (s : st) : str :=
   let idt := if custom_file_names s && negb (has_slash (cid s)) && id_safe (cid s) then cid s else [] in
   match idt with [] => dec (pcount (toc s)) ++ R "-" ++ dec2 (ccount (toc s)) | _ => idt end.
